@@ -140,3 +140,33 @@ Lemma v_swap_run :
              (swap_run VmD v_old (compiled v_old) v_new (compiled v_new) [[];[];[]] [[];[];[]])
     = Some ([Some 1; Some 2; Some 3], [Some 8; Some 13; Some 18], [Some 6; Some 6; Some 6])%Z.
 Proof. vm_compute. auto. Qed.
+
+(* voice programs: v_old and v_new above, and v_del = v_old with the voice cnt(1) deleted *)
+Definition v_del : program := mkProg vfuns [] [] [ ECall 2 [ELit 3] ].
+
+Lemma v_voice_progs :
+  voice_prog v_old = true /\ voice_prog v_new = true /\ voice_prog v_del = true /\
+  wf_prog v_del = true /\ compile v_del = Some (compiled v_del) /\
+  voice_skels v_old = [[FnCall [Feed 1]]; [FnCall [Mem 1; Delay 3]]] /\
+  voice_skel v_del 0 = Some (FnCall [Mem 1; Delay 3]).
+Proof. vm_compute. auto 10. Qed.
+
+Lemma v_sublists : sublist (p_outs v_del) (p_outs v_old) /\ sublist (p_outs v_old) (p_outs v_new).
+Proof.
+  split; cbn [p_outs v_del v_old v_new].
+  - apply sl_skip. apply sl_keep. apply sl_nil.
+  - apply sl_keep. apply sl_skip. apply sl_keep. apply sl_nil.
+Qed.
+
+Lemma v_old_distinct : NoDup (voice_skels v_old).
+Proof.
+  replace (voice_skels v_old) with [[FnCall [Feed 1]]; [FnCall [Mem 1; Delay 3]]] by (vm_compute; reflexivity).
+  constructor; [intros [H|[]]; discriminate H|]. constructor; [intros []|constructor].
+Qed.
+
+(* deleting cnt(1): f2(3) moves from channel 1 to channel 0 and continues (6,6,6) *)
+Lemma v_delete_run :
+  option_map (fun r => map (chan 0) (outs_of r))
+             (swap_run VmD v_old (compiled v_old) v_del (compiled v_del) [[];[];[]] [[];[];[]])
+  = Some [Some 6; Some 6; Some 6]%Z.
+Proof. vm_compute. reflexivity. Qed.
